@@ -886,7 +886,7 @@ func c18Watcher(res *Result) {
 		return
 	}
 	converged := func(state int) bool {
-		for i := 0; i < 100; i++ { // up to 5 s: the statement's "few seconds"
+		for i := 0; i < 400; i++ { // up to 20 s of real time: far more than the statement's "few seconds", so that a heavily loaded machine never causes an alarm; a watcher that misses the edit never converges at all
 			ok := true
 			for _, ip := range c18Probe {
 				ips := fmt.Sprintf("%d.%d.%d.%d", ip[0], ip[1], ip[2], ip[3])
@@ -919,7 +919,7 @@ func c18Watcher(res *Result) {
 			if st.rename {
 				sig = "rename-replace-not-reloaded"
 			}
-			addFound(res, "watcher", sig, fmt.Sprintf("real fsnotify watcher: after edit #%d (rename=%v) to %q the admitted set did not equal the file within 5 s", i, st.rename, c18File(st.state)), fmt.Sprint("watcher-step-", i))
+			addFound(res, "watcher", sig, fmt.Sprintf("real fsnotify watcher: after edit #%d (rename=%v) to %q the admitted set did not equal the file within 20 s", i, st.rename, c18File(st.state)), fmt.Sprint("watcher-step-", i))
 			return
 		}
 	}
